@@ -115,7 +115,8 @@ def arrive_in_place(df, mesh, emb, salt):
     import os
 
     route = salt % 6
-    if route < 3 or os.environ.get("VERIF_ARRIVE", "1") != "1" or mesh.region.pmin.dtype.kind != "f":
+    regs = [mesh.region] + list(mesh.subregions.values())
+    if route < 3 or os.environ.get("VERIF_ARRIVE", "1") != "1" or any(r.pmin.dtype.kind != "f" or r.pmax.dtype.kind != "f" for r in regs):
         ARRIVALS["direct"] += 1
         return mesh
     nd = mesh.region.ndim
